@@ -11,6 +11,16 @@ claim('C18',
       'Bounded proof, inductive step: one soxr_output call of the real soxr.c from any API state with a nondeterministic input function (short supply, end, failure at any of <= 4 calls) over the abstract engine: request <= max_ilen, consume-once-in-order (ghost sequence numbers checked inside the engine), no call after end/failure/in error state, error string set.',
       'Trusted: cbmc; abstract engine contract; frames per call <= 3 (4 thorough); datatypes/layout/engine/channels enumerated per obligation.')
 
-for pid in ['C01', 'C02', 'C03', 'C04', 'C05', 'C06', 'C08', 'C09', 'C10', 'C12', 'C13', 'C14', 'C15', 'C16',
+for pid in ['C01', 'C02', 'C04', 'C05', 'C06', 'C09', 'C10', 'C12', 'C13', 'C14', 'C16',
             'C17', 'C19', 'C20']:
     na(pid, 'check under construction in this session (breadth-first build order of DESIGN.md section 12); not yet claimed')
+
+claim('C03',
+      'Bounded proof, inductive step over the real accounting code of cr.c (abstract stage kernels): from any state satisfying the invariant, end-of-input fixes the total at round-half-up(N/io_ratio); never more than owed is delivered; a request is filled until the total is reached, then 0 for ever; input after end-of-input is refused; soxr.c latches end-of-input, reaches every channel engine before drawing output, and the pull loop starts the drain in the call in which the input function reports end.',
+      'Trusted: cbmc/kissat; stage progress contract (L3 obligations); IEEE division stands for N*orate/irate; flush-division obligations for io_ratio in {2,4,1/2,1/4} with N < 2^31 (quick) plus 8-bit ratios with N < 2^16 (thorough); owed - delivered and olen < 2^31.')
+claim('C15',
+      'Bounded proof, inductive step over the real _soxr_delay/_soxr_flush/_soxr_output/_soxr_input: delivered + round(delay) equals the total a flush fixes, delay >= -1 while streaming, equals the frames still to come after end-of-input, 0 when drained / before input; soxr_delay forwards the engine value and is 0 in the error state.',
+      'Trusted: cbmc/kissat; io_ratio a power of two and N < 2^16 for the float identities (other constants did not finish); frames_not_yet_supplied == 0; while streaming delivered <= N/io_ratio + 1 is assumed (C03).')
+claim('C08',
+      'Bounded proof with unwinding assertions over the real loops of cr.c (_soxr_process, stage_process) and soxr.c (soxr_output pull loop): termination within a bound that depends on the request only, drain after end-of-input, for any input-function behaviour and any engine supply.',
+      'Trusted: cbmc; abstract stage progress contract (L3); ENV input_size > pre_post; requests <= 4 frames; the planning loops of _soxr_init (halving loop, rational search) are not encoded.')
